@@ -36,6 +36,7 @@ var (
 	)
 	ErrCookieMismatch                       = stderrors.New("client+server cookie does not match")
 	ErrIdentityNoPSK                        = stderrors.New("PSK Identity Hint provided but PSK is nil")
+	ErrEmptyPSK                             = stderrors.New("PSK callback returned an empty key")
 	ErrInvalidCertificate                   = stderrors.New("no certificate provided")
 	ErrCertificateVerificationFailed        = stderrors.New("certificate verification failed")
 	ErrInvalidCipherSuite                   = stderrors.New("invalid or unknown cipher suite")
